@@ -2,6 +2,7 @@ import Walrus.Driver.ArenaD
 import Walrus.Driver.SectionsD
 import Walrus.Driver.VisitD
 import Walrus.Driver.BodyD
+import Walrus.Driver.CodeD
 
 open Walrus.Driver
 
@@ -11,6 +12,7 @@ def dispatch (line : String) : String :=
   | "sect" :: rest => handleSect rest
   | "visit" :: rest => handleVisit rest
   | "builder" :: rest => handleBuilder rest
+  | "code" :: rest => handleCode rest
   | _ => "bad-request"
 
 partial def loop (h : IO.FS.Stream) (out : IO.FS.Stream) : IO Unit := do
